@@ -173,4 +173,15 @@ Proof.
   apply (reply6_matches_request (map (as_handler6 now) is) lif oob pip pport d p dip dport ifx lg); [|exact E].
   apply Forall_forall. intros h Hh. apply in_map_iff in Hh. destruct Hh as (i & <- & _). apply inst6_id_preserving.
 Qed.
+
+(* the bridge in the form the C12 theorems consume (relay_reply_mirrors, direct_reply_unwrapped,
+   reply6_type_table, ...) *)
+Theorem assembled_sent_is_handle6_sent is lif now oob pip pport d is' p dip dport ifx :
+  srv6_step dec_pds enc_iapd is lif now oob pip pport (Some d) = (is', O6Sent p dip dport ifx) ->
+  exists log, handle6 (map (as_handler6 now) is) lif oob pip pport (Some d) = (Sent6 p dip dport ifx, log).
+Proof.
+  intros H. pose proof (srv6_refines_handle6 _ _ _ _ _ _ _ _ _ H ltac:(discriminate)) as Rf. cbn [out6_of] in Rf.
+  destruct (handle6 (map (as_handler6 now) is) lif oob pip pport (Some d)) as [o lg]. cbn [fst] in Rf. subst o.
+  exists lg. reflexivity.
+Qed.
 End V6.
